@@ -98,6 +98,25 @@ def early_out_programs(rng):
     return out
 
 
+def entry_by_jump_programs(rng):
+    """A called function whose label is also reached by a jump, a taken branch or by falling into it,
+    with a tracked stack slot (and tracked registers) on that path that hold something else when
+    the function is entered by its call: nothing known on the jump path may survive the entry."""
+    out = []
+    for how in ("j service", "beqz zero, service", "bnez s1, service", ""):
+        off = rng.choice([0, 4, 8, 12])
+        v1, v2 = rng.sample([11, 1, 34, 4], 2)
+        L = ["main:", "    addi sp, sp, -16", "    li s1, 0", f"    li t0, {v1}", f"    sw t0, {off}(sp)",
+             f"    li t3, {v1}", "    li a0, 65", "    jal service", "    li s1, 1", f"    li t0, {v2}",
+             f"    sw t0, {off}(sp)", f"    li t3, {v2}"]
+        if how:
+            L.append("    " + how)
+        L += ["service:", f"    lw a7, {off}(sp)", "    add t4, t3, zero", "    ecall", "    beqz s1, back",
+              "    addi sp, sp, 16", "    li a7, 10", "    ecall", "back:", "    ret"]
+        out.append("\n".join(L) + "\n")
+    return out
+
+
 def handler_layouts(rng):
     """Where an interrupt-vector installation (`la rX, h` + `csrrw _, utvec, rX`) can stand: on the
     program's main path, in a called function, after a return / behind a jump (code nothing
@@ -252,7 +271,7 @@ def alloca_programs(rng, n=6):
 
 
 def gen_programs(rng, n, sloppy_choices=(0, 0.1, 0.3), multi=0.15):
-    out = list(CORPUS) + branch_matrix() + ecall_matrix() + arith_matrix(rng) + alloca_programs(rng) + handler_layouts(rng) + early_out_programs(rng)
+    out = list(CORPUS) + branch_matrix() + ecall_matrix() + arith_matrix(rng) + alloca_programs(rng) + handler_layouts(rng) + early_out_programs(rng) + entry_by_jump_programs(rng)
     for _ in range(max(4, n // 10)):
         out.append(handler_program(rng))
         out.append(backward_layout(rng))
